@@ -16,6 +16,32 @@ static const char *meth_name(int k) {
                  case COLAMD: return "COLAMD"; default: return "MY_PERMC"; }
 }
 
+/* bordered pattern for COLAMD's dense-row removal: n > 100, one or two (almost) full rows, a sparse body, and a few
+ * columns whose ONLY entries lie in the dense rows ("newly-made null columns" once the dense rows are removed) */
+static void bordered_gen(rng_t *r, int n, gmat_t *g) {
+    int nd = rng_int(r, 1, 2), nnull = rng_int(r, 1, 6);
+    char *mk = calloc((size_t)n * n, 1);
+#define BK(i, j) mk[(size_t)(j) * n + (i)]
+    int dr[2] = { rng_int(r, 0, n - 1), rng_int(r, 0, n - 1) };
+    char *isnull = calloc(n, 1);
+    for (int t = 0; t < nnull; t++) isnull[rng_int(r, 0, n - 1)] = 1;
+    for (int j = 0; j < n; j++) {
+        for (int d = 0; d < nd; d++) if (isnull[j] || rng_chance(r, 0.95)) BK(dr[d], j) = 1;
+        if (isnull[j]) continue;
+        if (j != dr[0] && (nd < 2 || j != dr[1])) BK(j, j) = 1;
+        for (int t = rng_int(r, 0, 2); t > 0; t--) { int i = rng_int(r, 0, n - 1); if (i != dr[0] && (nd < 2 || i != dr[1])) BK(i, j) = 1; }
+    }
+    long nnz = 0; for (size_t k = 0; k < (size_t)n * n; k++) nnz += mk[k];
+    g->m = g->n = n; g->nnz = nnz; g->pat = "bordered"; g->val = "generic";
+    g->colptr = HMALLOC(sizeof(int_t) * (n + 1)); g->rowind = HMALLOC(sizeof(int_t) * (nnz + 1));
+    g->re = HMALLOC(sizeof(double) * (nnz + 1)); g->im = HMALLOC(sizeof(double) * (nnz + 1));
+    long k = 0;
+    for (int j = 0; j < n; j++) { g->colptr[j] = k; for (int i = 0; i < n; i++) if (BK(i, j)) { g->rowind[k] = i; g->re[k] = gen_value(r, VAL_GENERIC); g->im[k] = 0; k++; } }
+    g->colptr[n] = k;
+#undef BK
+    free(mk); free(isnull);
+}
+
 static void order_case(ctx_t *c, long idx, rng_t *r) {
     int big = c->thorough ? 40 : 12;
     int n = rng_int(r, 1, big), m = rng_chance(r, 0.6) ? n : rng_int(r, 1, big);
@@ -38,7 +64,11 @@ static void order_case(ctx_t *c, long idx, rng_t *r) {
         pat = sp[rng_int(r, 0, 4)];
         if (nonsing == 1 && m != n) nonsing = 0;
     }
-    gmat_t g; gmat_gen(r, m, n, pat, VAL_GENERIC, nonsing, 0, &g);
+    gmat_t g;
+    /* every 40th case: the bordered pattern (decided from the index so that the other cases keep their inputs) */
+    int bordered = (idx % 40 == 17) || ctx_argl(c, "bordered", 0);
+    if (bordered) { n = m = rng_int(r, 101, c->thorough ? 260 : 150); if (rng_chance(r, 0.6)) meth = COLAMD; large = 1; bordered_gen(r, n, &g); }
+    else gmat_gen(r, m, n, pat, VAL_GENERIC, nonsing, 0, &g);
     /* row indices inside a column need not be sorted: shuffle some columns */
     int shuffled = rng_chance(r, 0.3);
     if (shuffled) for (int j = 0; j < n; j++) {
